@@ -7,7 +7,7 @@ import (
 	zz "rare/pkg/zzverif"
 )
 
-var zzHarnesses = map[string]func(){"H10FuncFile": H10FuncFile, "H10Reenter": H10Reenter}
+var zzHarnesses = map[string]func(){"H10FuncFile": H10FuncFile, "H10Reenter": H10Reenter, "H10Par": H10Par}
 
 func zzFuncs(kb *expressions.KeyBuilder) {
 	kb.Func("cat", func(args []expressions.KeyBuilderStage) (expressions.KeyBuilderStage, error) {
@@ -54,7 +54,7 @@ func zzLayout(name, body string) string {
 		return name + " " + parts[0] + " \\\n    " + strings.Join(parts[1:], " ") + "\n"
 	default:
 		if len(parts) < 2 {
-			return name + " " + body + "\n# end"  + "\n"
+			return name + " " + body + "\n# end" + "\n"
 		}
 		return name + " " + parts[0] + " \\ # why\n\n  # comment in the middle\n" + strings.Join(parts[1:], " ") + "\n\n"
 	}
@@ -222,3 +222,54 @@ func H10Reenter() {
 	zz.Assert(gotA == aloneA, "an evaluator interrupted inside a funcs-file call sees another evaluator's match")
 	zz.Reached()
 }
+
+// H10Par: the same compiled funcs-file call evaluated by two goroutines at
+// once on different matches (two extractor workers): each gets its own
+// result, and the call site's pooled argument context is used without a data
+// race - under every interleaving within the bound (engine scheduler and
+// happens-before monitor; native witness: go test -race).
+func H10Par() {
+	bodies := []string{"<{0}{gate}|{0}>", "{cat {0} {gate} {1} {0}}", "{gate}{cat {1} {0}}"}
+	b := bodies[zz.Choice(len(bodies))]
+	kb := expressions.NewKeyBuilderEx(zz.Choice(2) == 0)
+	zzFuncs(kb)
+	_, err := LoadDefinitions(kb, strings.NewReader("wrap "+b+"\n"), "mem")
+	zz.Assert(err == nil, "funcs file does not load")
+	calls := []string{"{wrap {1} {0}}", "{wrap {0} x}", "{wrap {cat {1} y} {1}}"}
+	c1, e1 := kb.Compile(calls[zz.Choice(len(calls))])
+	zz.Assert(e1 == nil && c1 != nil, "call does not compile")
+	ctxs := []*zzYieldCtx{{elems: []string{"a", "b"}}, {elems: []string{"c", "d"}}}
+	want := []string{c1.BuildKey(&zzGateCtx{elems: ctxs[0].elems}), c1.BuildKey(&zzGateCtx{elems: ctxs[1].elems})}
+	zz.Concurrent(1, zzParPreempt, 0)
+	zz.RaceMonitor(true)
+	got := make([]string, 2)
+	done := make(chan bool)
+	for i := 0; i < 2; i++ {
+		go func(i int) {
+			got[i] = c1.BuildKey(ctxs[i])
+			done <- true
+		}(i)
+	}
+	<-done
+	<-done
+	zz.Assert(got[0] == want[0] && got[1] == want[1], "a funcs-file call evaluated concurrently returns another match's result")
+	zz.Reached()
+}
+
+// a match whose {gate} key takes time to look up
+type zzYieldCtx struct{ elems []string }
+
+func (c *zzYieldCtx) GetMatch(i int) string {
+	if i >= 0 && i < len(c.elems) {
+		return c.elems[i]
+	}
+	return ""
+}
+func (c *zzYieldCtx) GetKey(k string) string {
+	if k == "gate" {
+		zz.Yield()
+	}
+	return ""
+}
+
+const zzParPreempt = 1
